@@ -10,7 +10,7 @@ import ast
 from ..report import rule
 from .. import norm, cfg as cfgmod, guards, matchers as M
 from ..model import AnalysisError, self_attr_assignments
-from .common import calls_of, find_calls, returns_of, is_abstract_body, bind_args
+from .common import reconstruction_check, calls_of, find_calls, returns_of, is_abstract_body, bind_args
 from ..typestate import TypeState
 
 CURSOR_API = ("is_active", "id", "next", "skip_to", "reset", "copy", "all_ids", "replace", "score",
@@ -444,3 +444,21 @@ def c11_r7(ctx):
     rets = [norm.canon(r.value) for r in ast.walk(mq.node) if isinstance(r, ast.Return) and r.value is not None]
     ok = len(rets) == 1 and "self.matchers[self.current:]" in rets[0] and rets[0].startswith("max(") and "max_quality()" in rets[0]
     ctx.ob(mq, ok, "max_quality() is the maximum over the current and ALL later sub-matchers", detail=str(rets))
+
+
+MRECON_OK = {
+    # (function, constructor parameter): reason
+}
+
+
+@rule("C11", "R8", "K4", "a matcher re-created by copy()/replace() keeps every setting of the original",
+      min_instances=20, also=("C09", "C01"),
+      clause="Wherever a matcher class builds a new object of its own class (copy, replace, _replacement, ...), the call fits the "
+             "constructor of every concrete class that inherits the method (and still reaches it) and binds every constructor "
+             "parameter that carries state (boost, tiebreak, scale, missing, limit, ...).")
+def c11_r8(ctx):
+    prog = ctx.prog
+    classes = M.matcher_classes(prog)
+    n = reconstruction_check(ctx, prog, classes, MRECON_OK)
+    if n < 20:
+        raise AnalysisError("only %d matcher re-construction sites found" % n)
